@@ -84,10 +84,22 @@ def conclude(pid, tier, level, histories, failures, rerun, coverage, t0, assumpt
         # confirm on an immediate re-run of the same history (a flaky rejection is not reported)
         again = rerun(hist[:f.step + 1] if f.prop != "CRASH" else hist)
         again_first = vtrace.first_failures(again, pid)
+        replay_hist, replay_step = hist, (f.step if f.prop != "CRASH" else None)
+        if not again_first:
+            # not reproduced on its own: the histories of one chunk run in ONE process, so state that the library keeps per
+            # process (statics, tables initialised on first use) can reach it from the histories before it - run them again
+            # together, exactly as they ran
+            c0 = getattr(f, "chunk0", f.history)
+            pre = histories[c0:f.history]
+            if pre and sum(len(h) for h in pre) <= 60000:
+                joined = [c for h in pre for c in h] + (hist[:f.step + 1] if f.prop != "CRASH" else hist)
+                again_first = vtrace.first_failures(rerun(joined), pid)
+                if again_first:
+                    replay_hist, replay_step = joined, None
         if not again_first:
             flaky += 1
             continue
-        path = save_replay(pid, hist, f.step if f.prop != "CRASH" else None)
+        path = save_replay(pid, replay_hist, replay_step)
         violations.append((f, path))
         if len(violations) >= max_report:
             break
